@@ -81,9 +81,10 @@ func promiseMatches(p *vh.PRow, q searchQuery, tick int64) (stored, derived bool
 func init() {
 	register(&Family{
 		Name:  "c14.search",
-		Props: map[string][2]int{"C14": {700, 60000}, "C04": {100, 5000}, "C01": {100, 5000}},
+		Props: map[string][2]int{"C14": {700, 60000}, "C04": {100, 5000}, "C01": {100, 5000}, "C02": {250, 8000}},
 		Run: func(c *Ctx) {
 			r := c.R
+			c.noSpec = true // judged by the traversal oracle below (for C02: a promise that exists throughout is in no answer = no sequential order explains the answers)
 			cfg := randCfg(r, nil)
 			if r.Intn(3) == 0 {
 				cfg.Bg = []string{"TimeoutPromises"}
@@ -353,7 +354,7 @@ func (c *Ctx) traverse(s *Sim, helper *apisub.API, q searchQuery, ids []string) 
 		if all {
 			must++
 			if returned[id] == 0 {
-				s.mon.violate("C14,C01", "search:missing", fmt.Sprintf("query %+v: %s matched throughout the traversal but was never returned (%d pages)", q, id, pages))
+				s.mon.violate("C14,C01,C02", "search:missing", fmt.Sprintf("query %+v: %s matched throughout the traversal but was never returned (%d pages)", q, id, pages))
 			}
 		}
 		if some {
@@ -401,16 +402,16 @@ func (c *Ctx) traverse(s *Sim, helper *apisub.API, q searchQuery, ids []string) 
 		found := false
 		for _, p := range o.Res.SearchPromises.Promises {
 			if p.Id != id {
-				s.mon.violate("C14,C01", "search:exact-id-lists-another", fmt.Sprintf("a search for the id %q lists %s", id, p))
+				s.mon.violate("C14,C01,C02", "search:exact-id-lists-another", fmt.Sprintf("a search for the id %q lists %s", id, p))
 				continue
 			}
 			found = true
 			if row != nil && row.State != int(promise.Pending) && (int(p.State) != row.State || string(p.Value.Data) != string(row.ValueData)) {
-				s.mon.violate("C14,C01", "search:exact-id-differs-from-row", fmt.Sprintf("a search for the id %q lists %s, the stored row is %+v", id, p, *row))
+				s.mon.violate("C14,C01,C02", "search:exact-id-differs-from-row", fmt.Sprintf("a search for the id %q lists %s, the stored row is %+v", id, p, *row))
 			}
 		}
 		if row != nil && !found {
-			s.mon.violate("C14,C01", "search:exact-id-missing", fmt.Sprintf("the promise %q exists (state %d) but a search for exactly its id lists %d other promise(s) and not it", id, row.State, len(o.Res.SearchPromises.Promises)))
+			s.mon.violate("C14,C01,C02", "search:exact-id-missing", fmt.Sprintf("the promise %q exists (state %d) but a search for exactly its id lists %d other promise(s) and not it", id, row.State, len(o.Res.SearchPromises.Promises)))
 		}
 	}
 	if pages > 1 {
